@@ -248,6 +248,7 @@ class Engine:
             self.models.update(models)
         self.truncated = False
         self.root_subst = None
+        self.syn = dict(SYN_MODELS)
 
     # ---- store -------------------------------------------------------------------------
     def read(self, st, loc):
@@ -602,6 +603,10 @@ class Engine:
                             break
                     fr["bb"] = nxt
                     continue
+                isb = d_is_bool(d, t)
+                if d[0] == "b2i":
+                    d = d[1]
+                    isb = True
                 atom, flip = tag_atom(d)
                 fact = st.tagfacts.get(atom)
                 opts = []
@@ -634,7 +639,7 @@ class Engine:
                 for s2, (v, av, b) in zip(states, feas):
                     if v is None:
                         others = set((1 - x) if flip else x for x in vals)
-                        if d_is_bool(d, t) and others == {0}:
+                        if isb and others == {0}:
                             s2.tagfacts[atom] = 1
                             s2.pc.append((d, True, "branch"))
                         else:
@@ -645,7 +650,7 @@ class Engine:
                             s2.pc.append((d, ("not", tuple(sorted(others))), "branch"))
                     else:
                         s2.tagfacts[atom] = av
-                        if d_is_bool(d, t):
+                        if isb:
                             s2.pc.append((d, bool(v), "branch"))
                         else:
                             s2.pc.append((d, v, "branch"))
@@ -720,6 +725,21 @@ class Engine:
                 self.write(st, dest, r)
                 fr["bb"] = t["target"]
                 return None
+        # 1b. higher-order std functions whose closure has effects: a synthetic body that calls the closure (no laziness possible)
+        sb = self.syn.get(key)
+        if sb is not None and len(st.frames) <= self.max_depth:
+            sf = sb(self, st, callee, args, ev)
+            if sf is not None:
+                fid = self._nfid
+                self._nfid += 1
+                ev["inlined"] = True
+                ev["syn"] = True
+                for i, a in enumerate(args):
+                    st.store[("L", fid, i + 1)] = a
+                for i, v in enumerate(getattr(sf, "elem_values", []) or []):
+                    st.store[("L", fid, 4 + 3 * i)] = v
+                st.frames.append({"fn": sf, "fid": fid, "bb": 0, "dest": dest, "ret_to": t["target"], "cev": ev, "subst": dict(fr.get("subst") or {})})
+                return None
         # 2. inlining of local functions
         target_fn = None
         if callee is not None:
@@ -735,7 +755,8 @@ class Engine:
                     target_fn = f2
                     targs = ta
                     break
-        if target_fn is not None and len(st.frames) <= self.max_depth and self.inline(target_fn, ev):
+        if target_fn is not None and len(st.frames) <= self.max_depth and (self.inline(target_fn, ev) or callee.get("syn_inline")) \
+                and not any(f0["fn"] is target_fn for f0 in st.frames):
             fid = self._nfid
             self._nfid += 1
             ev["inlined"] = True
@@ -753,7 +774,7 @@ class Engine:
         r = ("call", cid, key, tuple(args), retty)
         ev["result"] = r
         # havoc memory reachable through &mut / *mut arguments
-        if callee is not None:
+        if callee is not None and not (callee["name"] in NO_WRITE_NAMES and (callee.get("def") or "").startswith(("core::", "std::", "alloc::"))):
             for a, ja in zip(args, t["args"]):
                 aty = _operand_ty(fn, ja)
                 if aty.startswith("&mut") or aty.startswith("*mut"):
@@ -779,6 +800,11 @@ class Engine:
         if isinstance(a, tuple) and a and a[0] == "pref":
             return a[1]
         return None
+
+
+# std functions that take `&mut`/`*mut` but do not write through it (they only derive another pointer/reference)
+NO_WRITE_NAMES = {"as_mut_ptr", "split_at_mut", "index_mut", "iter_mut", "as_mut", "deref_mut", "get_mut", "borrow_mut", "from_raw_parts_mut",
+                  "as_mut_slice", "add", "sub", "offset", "cast", "as_ptr", "split_first_mut", "first_mut", "last_mut", "get_unchecked_mut"}
 
 
 class _PseudoFn:
@@ -951,6 +977,8 @@ def err_payload(r):
 def some_payload(o):
     if o[0] == "agg" and o[3] == "Some":
         return o[5][0]
+    if o[0] == "optif":
+        return o[2]
     return ("someval", o)
 
 
@@ -979,6 +1007,8 @@ def discr_of(v, ty="isize"):
         return discr_of_result(v[1], ty)
     if k in ("map_err", "err_from", "ok_or", "map_ok"):
         return discr_of_result(v, ty)
+    if k == "optif":
+        return ("b2i", v[1])
     return ("tag", v)
 
 
@@ -1268,6 +1298,385 @@ def _m_copy_from_slice(eng, st, callee, args, ev):
     for i in range(n):
         eng.write(st, ("I", base, C(lo[1] + i, "usize")), eng.read(st, eng._index_loc(sloc, C(i, "usize"))))
     return UNIT
+
+
+# ---- synthetic bodies for higher-order std functions ----------------------------------------------------------------------------
+
+class SynFn:
+    """a small MIR body written by the analyser: the documented behaviour of a std higher-order function, calling the closure it is given"""
+
+    def __init__(self, name, argc, nlocals, blocks, like):
+        self.def_ = "<std model>::" + name
+        self.canon = "<std model>::" + name
+        self.name = name
+        self.blocks = blocks
+        self.locals = [{"ty": "?", "name": None, "mut": True} for _ in range(nlocals)]
+        self.argc = argc
+        self.promoted = []
+        self.file = like.file
+        self.line = like.line
+        self.crate = "<std model>"
+        self.impl_trait = None
+        self.impl_self = None
+        self.generics = []
+
+    def where(self):
+        return "%s:%s" % (self.file, self.line)
+
+
+def _P(local, proj=(), ty="?"):
+    return {"local": local, "proj": list(proj), "ty": ty}
+
+
+def _mv(local, proj=(), ty="?"):
+    return {"k": "move", "p": _P(local, proj, ty)}
+
+
+def _assign(local, rv):
+    return {"k": "assign", "p": _P(local), "rv": rv}
+
+
+def _bb(stmts, term):
+    return {"cleanup": False, "stmts": stmts, "term": term}
+
+
+def _variant(adt, variant, vidx, ops):
+    return {"k": "agg", "ak": "adt", "adt": adt, "variant": variant, "fields": [str(i) for i in range(len(ops))], "vidx": vidx, "ops": ops}
+
+
+def _closure_fn(eng, clo):
+    canon = clo[2] if clo[0] == "agg" and clo[1] == "closure" else (clo[1] if clo[0] == "closure" else None)
+    return eng.facts.fn_by_canon(canon) if canon else None
+
+
+def _closure_call(cf, env_local, env_ref_local, arg_operands, dest, target, stmts):
+    """terminator calling closure body cf; env passed by value or by reference according to the body's signature"""
+    ety = cf.locals[1]["ty"] if cf.argc >= 1 else ""
+    if ety.startswith("&"):
+        stmts.append(_assign(env_ref_local, {"k": "ref", "mut": ety.startswith("&mut"), "p": _P(env_local)}))
+        env_op = _mv(env_ref_local, ty=ety)
+    else:
+        env_op = _mv(env_local, ty=ety)
+    callee = {"def": cf.canon, "canon": cf.canon, "full": cf.canon, "krate": cf.crate, "name": "call", "args": [], "dk": "Closure", "unsafe": False,
+              "syn_inline": True}
+    return {"k": "call", "callee": callee, "args": [env_op] + arg_operands, "dest": _P(dest, ty=cf.locals[0]["ty"]), "target": target, "unwind": None,
+            "line": None, "exp": True}
+
+
+def _has_effects(eng, cf):
+    """does the closure body call anything that is not a model or write through a pointer? (cheap syntactic scan of its MIR)"""
+    for bb in cf.blocks:
+        t = bb["term"]
+        if t["k"] == "call":
+            c = t.get("callee")
+            if c is None:
+                return True
+            k = callee_key(c)
+            if k in eng.models or k in eng.syn:
+                continue
+            return True
+        for s in bb["stmts"]:
+            if s["k"] == "assign" and any(pe["k"] == "deref" for pe in s["p"]["proj"]):
+                return True
+    return False
+
+
+def _syn_result_map(eng, st, callee, args, ev, adt="core::result::Result", ok="Ok", okidx=0, other="Err", otheridx=1):
+    if len(args) != 2:
+        return None
+    cf = _closure_fn(eng, args[1])
+    if cf is None or cf.argc != 2 or not _has_effects(eng, cf):
+        return None
+    # locals: 0 ret, 1 r, 2 closure, 3 discr, 4 env ref, 5 closure result
+    b1s = []
+    blocks = [
+        _bb([_assign(3, {"k": "discr", "p": _P(1)})], {"k": "switch", "discr": _mv(3), "targets": [[okidx, 1]], "otherwise": 3, "dty": "isize"}),
+        None,
+        _bb([_assign(0, _variant(adt, ok, okidx, [_mv(5)]))], {"k": "return"}),
+        _bb([_assign(0, {"k": "use", "op": _mv(1)})], {"k": "return"}),
+    ]
+    blocks[1] = _bb(b1s, _closure_call(cf, 2, 4, [_mv(1, [{"k": "downcast", "name": ok}, {"k": "field", "name": "0"}])], 5, 2, b1s))
+    return SynFn("map", 2, 6, blocks, st.frames[-1]["fn"])
+
+
+def _syn_option_map(eng, st, callee, args, ev):
+    return _syn_result_map(eng, st, callee, args, ev, adt="core::option::Option", ok="Some", okidx=1, other="None", otheridx=0)
+
+
+def _known_elems(eng, st, it):
+    """element references of an iterator value over a slice/array of known length (<= 32), else None"""
+    v = it
+    if v[0] == "ref":
+        v = eng.read(st, v[1])
+    if v[0] == "call" and (v[2] or "").endswith(("<impl [T]>::iter", "<impl [T]>::iter_mut")) and v[3]:
+        sp = slice_parts(eng, st, v[3][0])
+        if sp is None:
+            return None
+        b0, lo, hi = sp
+        if is_c(lo) and is_c(hi) and 0 <= hi[1] - lo[1] <= 32:
+            return [("ref", ("I", b0, C(i, "usize"))) for i in range(lo[1], hi[1])]
+    if v[0] == "agg" and v[1] == "adt" and v[2] == "core::array::iter::IntoIter":
+        arr, pos = v[5][0], v[5][1]
+        if is_c(pos) and arr[0] == "agg" and len(arr[5]) <= 32:
+            return [x for x in arr[5][pos[1]:]]
+    return None
+
+
+def _syn_try_for_each(eng, st, callee, args, ev):
+    """Iterator::try_for_each over a known, short element list: call the closure on each element, stop at the first Err"""
+    if len(args) != 2:
+        return None
+    cf = _closure_fn(eng, args[1])
+    elems = _known_elems(eng, st, args[0])
+    if cf is None or cf.argc != 2 or elems is None:
+        return None
+    n = len(elems)
+    # locals: 0 ret, 1 iter, 2 closure, 3 env ref, 4.. per element: value, result, discr
+    fid_locals = 4 + 3 * n
+    blocks = []
+    for i in range(n):
+        vl, rl, dl = 4 + 3 * i, 5 + 3 * i, 6 + 3 * i
+        stm = []
+        call = _closure_call(cf, 2, 3, [_mv(vl)], rl, 3 * i + 1, stm)
+        blocks.append(_bb(stm, call))
+        blocks.append(_bb([_assign(dl, {"k": "discr", "p": _P(rl)})],
+                          {"k": "switch", "discr": _mv(dl), "targets": [[0, 3 * i + 3]], "otherwise": 3 * i + 2, "dty": "isize"}))
+        blocks.append(_bb([_assign(0, {"k": "use", "op": _mv(rl)})], {"k": "return"}))
+    blocks.append(_bb([_assign(0, _variant("core::result::Result", "Ok", 0, [{"k": "const", "ty": "()", "zst": True}]))], {"k": "return"}))
+    sf = SynFn("try_for_each", 2, fid_locals, blocks, st.frames[-1]["fn"])
+    sf.elem_values = elems
+    return sf
+
+
+SYN_MODELS = {
+    "std::result::Result::<T, E>::map": _syn_result_map,
+    "std::option::Option::<T>::map": _syn_option_map,
+    "core::iter::traits::iterator::Iterator::try_for_each": _syn_try_for_each,
+}
+
+
+# ---- opt-in models of slice / option plumbing (used by the semantic summaries) ------------------------------------------------
+
+def slice_parts(eng, st, t, self_ty=None):
+    """(base location, lo, hi) of a slice-typed reference term; opaque slices x become (*x)[0..len(x)]"""
+    while t[0] == "ref" and t[1][0] == "P":
+        t = t[1][1]
+    if t[0] == "ref":
+        loc = t[1]
+        if loc[0] == "S":
+            return loc[1], loc[2], loc[3]
+        n = _array_len(self_ty or "")
+        if n is not None:
+            return loc, C(0, "usize"), C(n, "usize")
+        v = eng.read(st, loc)
+        if v[0] == "agg" and v[1] == "array":
+            return loc, C(0, "usize"), C(len(v[5]), "usize")
+        return None
+    if t[0] in ("param", "call", "okval", "someval", "getf", "init", "havoc"):
+        return ("P", t), C(0, "usize"), ("len", t)
+    return None
+
+
+def mk_slice(base, lo, hi):
+    if base[0] == "P" and is_c(lo) and lo[1] == 0 and hi == ("len", base[1]):
+        return base[1]
+    return ("ref", ("S", base, lo, hi))
+
+
+def _range_bounds(rng, ln):
+    nm = (rng[2] or "").split("::")[-1]
+    f = dict(zip(rng[4], rng[5]))
+    if nm == "RangeFull":
+        return C(0, "usize"), ln
+    if nm == "RangeTo":
+        return C(0, "usize"), f["end"]
+    if nm == "RangeToInclusive":
+        return C(0, "usize"), mk_bin("Add", f["end"], C(1, "usize"), "usize")
+    if nm == "RangeFrom":
+        return f["start"], ln
+    if nm == "Range":
+        return f["start"], f["end"]
+    if nm == "RangeInclusive":
+        return None
+    return None
+
+
+def _m_index2(eng, st, callee, args, ev):
+    base, rng = args[0], args[1]
+    sp = slice_parts(eng, st, base, callee.get("self_ty"))
+    if sp is None:
+        return NotImplemented
+    b0, lo0, hi0 = sp
+    ln = mk_bin("Sub", hi0, lo0, "usize")
+    if rng[0] == "agg" and rng[1] == "adt":
+        bd = _range_bounds(rng, ln)
+        if bd is None:
+            return NotImplemented
+        lo, hi = bd
+        ev["range"] = {"lo": lo, "hi": hi, "len": ln, "kind": (rng[2] or "").split("::")[-1]}
+        return mk_slice(b0, mk_bin("Add", lo0, lo, "usize"), mk_bin("Add", lo0, hi, "usize"))
+    return NotImplemented
+
+
+def _m_split_at(eng, st, callee, args, ev):
+    sp = slice_parts(eng, st, args[0], callee.get("self_ty"))
+    if sp is None:
+        return NotImplemented
+    b0, lo0, hi0 = sp
+    mid = mk_bin("Add", lo0, args[1], "usize")
+    ev["range"] = {"lo": C(0, "usize"), "hi": args[1], "len": mk_bin("Sub", hi0, lo0, "usize"), "kind": "split_at"}
+    return ("agg", "tuple", None, None, ("0", "1"), (mk_slice(b0, lo0, mid), mk_slice(b0, mid, hi0)))
+
+
+def _m_split_first(eng, st, callee, args, ev):
+    sp = slice_parts(eng, st, args[0], callee.get("self_ty"))
+    if sp is None:
+        return NotImplemented
+    b0, lo0, hi0 = sp
+    ln = mk_bin("Sub", hi0, lo0, "usize")
+    one = mk_bin("Add", lo0, C(1, "usize"), "usize")
+    pay = ("agg", "tuple", None, None, ("0", "1"), (("ref", ("I", b0, lo0)), mk_slice(b0, one, hi0)))
+    return mk_optif(mk_bin("Ne", ln, C(0, "usize"), "usize"), pay)
+
+
+def _m_first(eng, st, callee, args, ev):
+    sp = slice_parts(eng, st, args[0], callee.get("self_ty"))
+    if sp is None:
+        return NotImplemented
+    b0, lo0, hi0 = sp
+    ln = mk_bin("Sub", hi0, lo0, "usize")
+    return mk_optif(mk_bin("Ne", ln, C(0, "usize"), "usize"), ("ref", ("I", b0, lo0)))
+
+
+def _m_get(eng, st, callee, args, ev):
+    sp = slice_parts(eng, st, args[0], callee.get("self_ty"))
+    if sp is None:
+        return NotImplemented
+    b0, lo0, hi0 = sp
+    ln = mk_bin("Sub", hi0, lo0, "usize")
+    i = args[1]
+    if i[0] == "agg":
+        return NotImplemented
+    return mk_optif(mk_bin("Lt", i, ln, "usize"), ("ref", ("I", b0, mk_bin("Add", lo0, i, "usize"))))
+
+
+def mk_optif(cond, payload):
+    if is_c(cond):
+        if cond[1]:
+            return ("agg", "adt", "core::option::Option", "Some", ("0",), (payload,), 1)
+        return ("agg", "adt", "core::option::Option", "None", (), (), 0)
+    return ("optif", cond, payload)
+
+
+def _m_from_ref(eng, st, callee, args, ev):
+    a = args[0]
+    if a[0] != "ref":
+        return NotImplemented
+    v = eng.read(st, a[1])
+    fid = st.frames[-1]["fid"]
+    loc = ("L", fid, "from_ref#%d" % ev["id"])
+    st.store[loc] = ("agg", "array", None, None, None, (v,))
+    return ("ref", ("S", loc, C(0, "usize"), C(1, "usize")))
+
+
+def _opt_view(eng, st, t):
+    """(tag-is-some condition term, payload) of an Option-valued term"""
+    if t[0] == "agg" and t[1] == "adt" and t[3] in ("Some", "None"):
+        return (TRUE, t[5][0]) if t[3] == "Some" else (FALSE, None)
+    if t[0] == "optif":
+        return t[1], t[2]
+    return None
+
+
+def _deref_val(eng, st, t):
+    if t[0] == "ref":
+        return eng.read(st, t[1])
+    if t[0] == "pref":
+        return t[1]
+    return None
+
+
+def _m_opt_eq(eng, st, callee, args, ev, negate=False):
+    st_ty = callee.get("self_ty") or ""
+    if not st_ty.startswith(("core::option::Option<", "std::option::Option<")):
+        return NotImplemented
+    a = _deref_val(eng, st, args[0])
+    b = _deref_val(eng, st, args[1])
+    if a is None or b is None:
+        return NotImplemented
+    va, vb = _opt_view(eng, st, a), _opt_view(eng, st, b)
+    if va is None or vb is None:
+        return NotImplemented
+    (ca, pa), (cb, pb) = va, vb
+    if is_c(cb) and not is_c(ca):
+        (ca, pa), (cb, pb) = (cb, pb), (ca, pa)
+    if not is_c(ca):
+        return NotImplemented
+    if not ca[1]:
+        r = mk_un("Not", cb, "bool")
+    else:
+        # Some(x) == o  <=>  o is Some and payloads equal; payloads that are references compare their pointees
+        x, y = pa, pb
+        if "&" in st_ty:
+            x, y = _deref_val(eng, st, x) if x is not None else None, _deref_val(eng, st, y) if y is not None else None
+        if x is None or y is None:
+            return NotImplemented
+        r = mk_and(cb, mk_bin("Eq", y, x, term_ty_guess(x, y)))
+    return mk_un("Not", r, "bool") if negate else r
+
+
+def term_ty_guess(*ts):
+    for t in ts:
+        if t[0] in ("c", "param"):
+            return t[2]
+    return "u8"
+
+
+def mk_and(a, b):
+    if is_c(a):
+        return b if a[1] else FALSE
+    if is_c(b):
+        return a if b[1] else FALSE
+    return ("and", a, b)
+
+
+def _m_from_bool(eng, st, callee, args, ev):
+    """<uN as From<bool>>::from / <uN as From<uM>>::from (lossless widenings)"""
+    st_ty = callee.get("self_ty") or ""
+    src = (callee.get("args") or [None, None])[-1]
+    if st_ty in INT_BITS and src in INT_BITS and src != st_ty:
+        return mk_cast("IntToInt", args[0], src, st_ty)
+    return NotImplemented
+
+
+def _m_as_ptr(eng, st, callee, args, ev):
+    sp = slice_parts(eng, st, args[0], callee.get("self_ty"))
+    if sp is None:
+        return NotImplemented
+    b0, lo0, hi0 = sp
+    if b0[0] != "P":
+        return NotImplemented
+    base = ("call", ev["id"], ev["key"], (b0[1],), "*const u8")
+    ev["pure_of"] = b0[1]
+    return mk_bin("Add", base, lo0, "usize")
+
+
+SLICE_MODELS = {
+    "core::slice::<impl [T]>::as_ptr": _m_as_ptr,
+    "core::slice::<impl [T]>::as_mut_ptr": _m_as_ptr,
+    "core::ops::index::Index::index": _m_index2,
+    "core::ops::index::IndexMut::index_mut": _m_index2,
+    "core::slice::<impl [T]>::split_at": _m_split_at,
+    "core::slice::<impl [T]>::split_at_mut": _m_split_at,
+    "core::slice::<impl [T]>::split_first": _m_split_first,
+    "core::slice::<impl [T]>::first": _m_first,
+    "core::slice::<impl [T]>::get": _m_get,
+    "core::slice::from_ref": _m_from_ref,
+    "std::slice::from_ref": _m_from_ref,
+    "core::cmp::PartialEq::eq": _m_opt_eq,
+    "core::cmp::PartialEq::ne": lambda eng, st, callee, args, ev: _m_opt_eq(eng, st, callee, args, ev, negate=True),
+    "core::convert::From::from": _m_from_bool,
+}
 
 
 MODELS = {
